@@ -18,8 +18,11 @@ import os
 from . import loader as _loader
 
 
-class BlockError(Exception):
-    pass
+from .sym import LeftFragment
+
+
+class BlockError(LeftFragment):
+    """the block could not be located / is not self-contained in the current source: a limit of the extractor, never evidence about the code"""
 
 
 def _names(node_list):
